@@ -43,8 +43,8 @@ def check(vb, par, W, H):
 
 def search(_payload):
     vbs = ['0 0 100 50', '10,20,50,100', ' 1 2  30 30 ', '-5 -7 80 20 9', None, '', '1 2 3', 'a b c d', '0 0 0 10', '0 0 10 -1', '0 0 10 x',
-           '0 0 -200 -300', '0\t0\t40  90', '5 5 1e1 2.5e1', '0 0 2.5e-1 1e-1', '-1e-1 -2 5E+1 2.5e1', '0-10 200 100']
-    pages = [(200, 200), (100, 400), (400, 100), (0, 10), (10, -1)]
+           '0 0 -200 -300', '0\t0\t40  90', '5 5 1e1 2.5e1', '0 0 2.5e-1 1e-1', '0 0 4000000 1', '10 20 100 50', '-1e-1 -2 5E+1 2.5e1', '0-10 200 100']
+    pages = [(200, 200), (100, 400), (400, 100), (0, 10), (10, -1), (4000000, 3), (8000000, 1), (100, 50), (100, 100), (-5, 100), (100, 0), (11.0, 8.5)]
     pars = [None, '', 'defer', 'none', 'defer none', 'None slice']
     for al in ALIGNS:
         pars += [al, f'{al} meet', f'{al} slice', f'{al.upper()},SLICE', f'defer {al} slice', f'defer {al} meet', f'defer {al}',
